@@ -409,6 +409,9 @@ type reentrancyState struct {
 	requestStates *xsync.Map[string, *requestState]
 	inFlightCount atomic.Int64
 	blockingCount atomic.Int64
+	// bookkeeping serializes admission, removal and the off-turn wipes
+	// (shutdown cancellation, reset) so the counters cannot drift.
+	bookkeeping sync.Mutex
 }
 
 // newReentrancyState initializes per-actor reentrancy counters and storage.
@@ -450,9 +453,11 @@ func (s *reentrancyState) reset() {
 	if s == nil {
 		return
 	}
+	s.bookkeeping.Lock()
 	s.requestStates.Reset()
 	s.inFlightCount.Store(0)
 	s.blockingCount.Store(0)
+	s.bookkeeping.Unlock()
 }
 
 func (s *reentrancyState) toProto() *internalpb.ReentrancyConfig {
